@@ -381,10 +381,10 @@ class CellConversion:
         t4_ids = matching[abs(p_tree.surface)]
 
         if p_tree.sub is not None:
-            if p_tree.sub > len(t4_ids):
+            if p_tree.sub < 1 or p_tree.sub > len(t4_ids):
                 msg = (f'found facet {p_tree.sub} of surface {p_tree.surface} '
                        f'in a cell definition, but surface {p_tree.surface} '
-                       f'does not have enough facets ({len(t4_ids)})')
+                       f'has facets 1 to {len(t4_ids)}')
                 raise CellConversionError(msg)
             sub_surf = t4_ids[p_tree.sub - 1]
             return sub_surf if p_tree.surface > 0 else -sub_surf
